@@ -895,3 +895,77 @@ def run(ctx):
     _run_main_r8(ctx)
     same_output_grid(ctx)
     ctx.flush()
+
+
+# ---- round 9: quotients dt/target_dt (and target_dt/dt) that are NEAR MISSES of a whole number -------------------------------------------------
+# relative 1e-15 .. 1e-4 above and below k (targets typed to a few digits such as dt/3 = 0.0033333, k (1 +- eps)): the one-ulp grid above only reaches
+# the last bit, random pairs come within 1e-5 of a whole quotient with probability ~1e-5 (a "snap to the nearest whole factor" guard: seed C03-r9-1)
+
+def near_whole_quotients(ctx):
+    import eqsig
+    from eqsig.fns import time_step as ts
+    rng = ctx.rng
+    eps_list = [1e-15, 1e-14, 1e-12, 1e-10, 1e-9, 1e-8, 1e-7, 1e-6, 3e-6, 9e-6, 3e-5, 1e-4]
+    cases = [(0.01, 0.00333333, 'typed'), (0.01, 0.00333334, 'typed'), (0.02, 0.0028571, 'typed'), (0.0099999, 0.03, 'typed'), (0.0100001, 0.03, 'typed')]
+    for k in range(1, 21):
+        for _ in range(2 if ctx.tier == 'quick' else 12):
+            dt = rng.choice([0.01, 0.02, 0.005, 0.05, 0.004, 0.3, 1.0, 0.0078125])
+            eps = rng.choice(eps_list)
+            q = k * (1 + rng.choice([-1, 1]) * eps)
+            if q > 1:
+                cases.append((dt, dt / q, 'dt / target = k (1 +- eps)'))
+            cases.append((dt, dt * q, 'target / dt = k (1 +- eps)'))
+            digits = rng.randint(5, 9)
+            if k >= 2:
+                t0 = float(f'%.{digits}f' % (dt / k))
+                cases.append((dt, t0 + rng.choice([-1, 0, 1]) * 10.0 ** -digits, 'typed'))
+    for dt, target, kind in cases:
+        if not (target > 0 and dt > 0):
+            continue
+        n = rng.choice([7, 12, 33, 60])
+        a = gen.int_record(rng, n).astype(float) if rng.random() < 0.5 else gen.noise_record(rng, n)
+        even = rng.random() < 0.5
+        inputs = {'values': a, 'dt': dt, 'target_dt': target, 'even': even, 'family': kind}
+        ctx.hist('near-whole quotient/' + kind)
+        ctx.count_case(('r9near', a.tobytes(), dt, target, even), True)
+        level = rng.choice(['array', 'array', 'object', 'resample'])
+        if level == 'array':
+            r = call_impl(ts.interp_array_to_approx_dt, a, dt, target, even=even)
+            new_dt, out = (r[1][1], np.asarray(r[1][0])) if r[0] == 'ok' else (None, None)
+        else:
+            fn = ts.interp_to_approx_dt if level == 'object' else ts.resample_to_approx_dt
+            if level == 'resample' and (not even or target >= dt * n / 2):
+                fn = ts.interp_to_approx_dt       # resample_to_approx_dt: even=False / tiny outputs are open finding F14-2 territory
+            r = call_impl(fn, eqsig.AccSignal(a, dt), target, even=even)
+            new_dt, out = (r[1].dt, np.asarray(r[1].values)) if r[0] == 'ok' else (None, None)
+        if r[0] != 'ok':
+            ctx.oracle('C14 interp_array_to_approx_dt returns on its domain (dt, target > 0)', False, {**inputs, 'level': level}, detail=r)
+            continue
+        fdt, ftg, fnd = fr(dt), fr(target), fr(float(new_dt))
+        q = fdt / ftg
+        edec = exact_decision(dt, target)
+        near = near_integer(dt, target) or float_decision(dt, target)[0] != edec
+        ctx.oracle('C14.a returned step does not exceed the target (to within 2^-50 relative; exactly unless the binary64 quotient is '
+                   'within one ulp of an integer)', fnd <= ftg * (1 + EPS50) and (near or fnd <= ftg * (1 + Fraction(1, 2 ** 52))),
+                   {**inputs, 'level': level}, detail={'new_dt': new_dt, 'dt/target': float(q)})
+        rr = fdt / fnd
+        got = Fraction(round(rr)) if rr >= 1 else Fraction(1, round(1 / rr))
+        ctx.oracle('C14.a ratio dt/new_dt is an integer (refinement) or the reciprocal of an integer (decimation)', abs(rr / got - 1) <= EPS50, {**inputs, 'level': level},
+                   detail={'new_dt': new_dt, 'ratio': float(rr)})
+        ctx.oracle('C14.a factor = ceil(dt/target) when dt >= target, 1/floor(target/dt) otherwise (exact quotient; either neighbour when '
+                   'the binary64 quotient is within one ulp of an integer)', got == edec or (near and got == float_decision(dt, target)[0]), {**inputs, 'level': level},
+                   detail={'factor_from_output': [got.numerator, got.denominator], 'rule': [edec.numerator, edec.denominator]})
+        if got >= 1 and level != 'resample':
+            kk = int(got)
+            ctx.oracle('C14.b refinement: original samples reappear unchanged at their instants (out[k*i] == x[i])',
+                       bool(np.array_equal(out[::kk][:n], a[:len(out[::kk][:n])])) and len(out) >= kk * (n - 1), {**inputs, 'level': level}, detail={'k': kk, 'len': len(out)})
+    ctx.flush()
+
+
+_run_main_r9 = run
+
+
+def run(ctx):
+    _run_main_r9(ctx)
+    near_whole_quotients(ctx)
+    ctx.flush()
